@@ -4,6 +4,7 @@ import (
 	"context"
 	"crypto/tls"
 	"errors"
+	"fmt"
 	"io"
 	"log/slog"
 	"net"
@@ -67,8 +68,15 @@ func (s *streamWriter) Invoke(msgs []actor.Envelope) {
 	)
 
 	for i := 0; i < len(msgs); i++ {
+		// The writer is an ordinary registered process: anybody, including a
+		// remote peer, can address a message to its PID. Only the router's
+		// deliveries mean anything to it.
+		stream, ok := msgs[i].Msg.(*streamDeliver)
+		if !ok {
+			slog.Error("stream writer ignores unexpected message", "type", fmt.Sprintf("%T", msgs[i].Msg))
+			continue
+		}
 		var (
-			stream   = msgs[i].Msg.(*streamDeliver)
 			typeID   int32
 			senderID int32
 			targetID int32
